@@ -318,6 +318,7 @@ fn run_worker<C: SubCheck>(
     let mut runner = TestRunner::new(cfg);
     let cov = RefCell::new(Cov::new(if worker == 0 { 4 } else { 1 }));
     let failed = Cell::new(false);
+    let first_failure: RefCell<Option<(C::Case, Fail)>> = RefCell::new(None);
     let strat = c.strategy(ctx.tier);
     let result = runner.run(&strat, |case| {
         if failed.get() {
@@ -347,6 +348,7 @@ fn run_worker<C: SubCheck>(
             Err(f) => {
                 failed.set(true);
                 stop.store(true, Ordering::Relaxed);
+                *first_failure.borrow_mut() = Some((case.clone(), f.clone()));
                 Err(TestCaseError::fail(f.sig))
             }
         }
@@ -355,14 +357,20 @@ fn run_worker<C: SubCheck>(
         Ok(()) => None,
         Err(TestError::Fail(_, minimal)) => {
             let mut scratch = Cov::new(0);
-            let f = match checked(c, &minimal, &mut scratch) {
-                Err(f) => f,
-                Ok(()) => Fail::new(
-                    "flaky-failure",
-                    "the shrunk case passed when re-run: the failure does not reproduce deterministically",
-                ),
-            };
-            Some((minimal, f))
+            match checked(c, &minimal, &mut scratch) {
+                Err(f) => Some((minimal, f)),
+                Ok(()) => {
+                    // the shrunk case passes when re-run: report the original failing case instead
+                    let (case0, f0) = first_failure.borrow_mut().take().expect("first failure recorded");
+                    Some((
+                        case0,
+                        Fail::new(
+                            format!("nondeterministic/{}", f0.sig),
+                            format!("(the shrunk case passed when re-run, so the failure depends on something outside the case; original failure follows)\n{}", f0.detail),
+                        ),
+                    ))
+                }
+            }
         }
         Err(TestError::Abort(r)) => {
             // generator problem, not a violation
